@@ -948,10 +948,6 @@ def in_domain(s: str, pos: str) -> bool:
 
 
 def classify(pos: str, s: str, fails) -> dict:
-    if pos == "literal-subclass":
-        # open finding C16/literal-subclass-repr: the __repr__ of a str/bytes SUBCLASS instance used as a
-        # Literal value is spliced as code (isinstance guard + !r)
-        return {"position": pos, "kind": "subclass-repr-spliced"}
     return {"position": pos, "kind": "string-not-data"}
 
 
@@ -1005,7 +1001,7 @@ def oracle(ctx: vlib.Ctx, boost: bool = False):
 # the check
 # ---------------------------------------------------------------------------
 
-THEOREMS = ["C16_render_eval", "C16_site_value_partial", "C16_default_branches_safe", "C16_default_literal_general",
+THEOREMS = ["C16_render_eval", "C16_sites_full", "C16_site_value", "C16_default_branches_safe", "C16_default_literal_general",
             "C16_default_literal", "C16_repr_tuple_refuted", "C16_repr_lex", "C16_ascii_lex", "C16_repr_bytes_lex", "C16_repr_clean", "C16_raw_plain_lex",
             "C16_raw_refuted", "C16_sites", "C16_site_literal", "C16_site_guarded", "C16_ident_char_inert",
             "C16_site_literal_bytes"]
@@ -1023,7 +1019,7 @@ def k10_evidence(ctx: vlib.Ctx):
         ctx.notes.append(f"K10 report failed: {type(e).__name__}: {e}")
         return None
     bad = [r for r in rep["sites"] if r["kind"] not in ("KRepr", "KAscii", "KGuardedIdent")
-           or (r["kind"] in ("KRepr", "KAscii") and (not r.get("types") or any(t in ("TTuple", "TAny") for t in r["types"])))]
+           or (r["kind"] in ("KRepr", "KAscii") and (not r.get("types") or any(t in ("TTuple", "TAny") or t.endswith("Sub") for t in r["types"])))]
     ctx.coverage["k10"] = {"rows": len(rep["sites"]), "counts": rep["counts"], "excluded_in_raise": rep["excluded_in_raise"],
                            "formatted_values_in_source": rep["total_formatted_values"],
                            "not_ok_rows": [f"{r['kind']} {r['file'].split('/')[-1]}:{r['line']} {r['expr'][:60]} ({r['origin'][:60]})" for r in bad[:20]],
@@ -1032,30 +1028,6 @@ def k10_evidence(ctx: vlib.Ctx):
     for r in rep["sites"]:
         ctx.hist("k10_origin", r["origin"][:40])
     return rep
-
-
-def sites_full(ctx: vlib.Ctx, rep, built: bool):
-    """C16_sites_full is a Definition: evaluate it on the table of this run.  It may only be false
-    because of the rows of the open finding C16/literal-subclass-repr (Literal values guarded by
-    isinstance); any other row failing it is reported as a broken obligation."""
-    if not built or rep is None:
-        return
-    ok, out = vlib.coq_eval("c16_sites_full", "From Coq Require Import List Bool.\nFrom Verif Require Import Splice.\n"
-                            "From VerifGen Require Import K10.\nEval vm_compute in (forallb site_ok_full splice_sites).\n")
-    val = ok and "= true" in out
-    sub = [r for r in rep["sites"] if r["kind"] in ("KRepr", "KAscii") and any(t.endswith("Sub") for t in r.get("types", []))]
-    known = [r for r in sub if r["origin"] == "Literal value" and r["func"] in ("pack_literal", "_add_body", "_get_literal_values_str")]
-    other = [r for r in sub if r not in known]
-    ctx.coverage["C16_sites_full"] = {"holds": bool(val), "rows_admitting_subclasses": [f"{r['file'].split('/')[-1]}:{r['line']} {r['expr']}" for r in sub][:20]}
-    if val:
-        ctx.obligation("C16_sites_full (Definition, evaluated by vm_compute on this run's table)", True, "holds: no repr() site admits subclass instances")
-        ctx.notes.append("C16_sites_full holds on this tree: finding C16/literal-subclass-repr no longer reproduces in the table (model-stale if still listed as open)")
-    else:
-        ctx.obligation("C16_sites_full (Definition, evaluated by vm_compute on this run's table)", False,
-                       "false only because of the open finding C16/literal-subclass-repr: " + "; ".join(f"{r['file'].split('/')[-1]}:{r['line']}" for r in known))
-        if other or not ok or not sub:
-            ctx.not_shown("C16_sites_full fails on rows outside the open finding", (out[-300:] if not ok else "") +
-                          "; ".join(f"{r['file'].split('/')[-1]}:{r['line']} {r['expr']} <{r['origin']}> {r['types']}" for r in other))
 
 
 def run(ctx: vlib.Ctx):
@@ -1103,7 +1075,6 @@ def run(ctx: vlib.Ctx):
         ctx.obligation("coqchk VerifProps.C16_strings (no axioms)", ok, log[-400:])
         if not ok:
             ctx.not_shown("coqchk VerifProps.C16_strings", log[-800:])
-    sites_full(ctx, rep, br.ok)
     model_tie(ctx)
     lit_tie(ctx)
     broken = bool(ctx.unshown)
